@@ -432,6 +432,8 @@ def run(ctx):
     # D9: descriptor, file name and mappings acquired while a code region is created are released on every exit of the attempt
     # (a compile that cannot get executable memory repeats the attempt each time: a leak there grows with the iterations; shared with C06)
     importlib.import_module("rules.c06").dual_map_pairing(db, rep, "D9-OS-RESOURCES")
+    # D10: the destructor of the code object releases what the object owns on every path on which it owns it (shared with C09)
+    importlib.import_module("rules.c09").d8_owned_fields_released(db, rep, "D10-OWNED-RELEASED")
 
     if n6 < 6:
         raise AnalysisBroken("only %d free-then-null instances found" % n6)
